@@ -53,8 +53,8 @@ def execute(program, ctx):
     def fail(inv, t, what, details, step):
         raise Violation(ID, inv, f"{ID}.{inv}/{t.spec['kind']}/{what}", dict(details, spec=t.spec), step)
 
-    def check_obs(t, net, batch, what, step):
-        """net: {n, in_dim, val_dim, params}, batch: dict pinn_in/val/eq_params."""
+    def check_obs(t, net, batch, what, step, off=0.0):
+        """net: {n, in_dim, val_dim, params}, batch: dict pinn_in/val/eq_params; off = offset of this network's tables."""
         b = t.spec["b"]
         if not isinstance(batch, dict) or set(batch.keys()) != {"pinn_in", "val", "eq_params"}:
             fail("batch-structure", t, what, {"got": str(type(batch))}, step)
@@ -63,8 +63,8 @@ def execute(program, ctx):
         if pin.shape != (b, cin) or val.shape != (b, cval):
             fail("batch-shape", t, what, {"pinn_in": list(pin.shape), "val": list(val.shape), "expected": [[b, cin], [b, cval]]}, step)
         r = np.rint(pin[:, 0] - gensim.C_IN)
-        if np.any(r < 0) or np.any(r >= net["n"]):
-            fail("row-not-in-table", t, what, {"decoded": r.tolist()}, step)
+        if np.any(r - off < 0) or np.any(r - off >= net["n"]):
+            fail("row-not-in-table", t, what, {"decoded": (r - off).tolist()}, step)
         for j in range(cin):
             if not np.array_equal(pin[:, j], r + gensim.C_IN + 100 * j):
                 fail("misaligned", t, what + "/pinn_in", {"col": j, "rows": r.tolist(), "got": pin[:, j].tolist()}, step)
@@ -143,7 +143,7 @@ def execute(program, ctx):
                         fail("non-empty-entry-for-network-without-observations", t, "multi", {"got": str(e)[:100]}, step)
                     ctx.count("probe.network_without_observations")
                 else:
-                    cols = max(cols, check_obs(t, net, e, f"multi", step))
+                    cols = max(cols, check_obs(t, net, e, "multi", step, off=i * gensim.NET_OFF))
         phases = []
         for v in gensim.substreams(s, g, b):
             m = t.models[v["name"]]
